@@ -542,13 +542,26 @@ def run_facade(shard, ctx, env, rng):
     try:
         methods = facade_calls(env, rng)
         ctx.count("facade_methods", len({m[0].split(":")[0] for m in methods}))
+        # the conditions initiators are tempted to "handle" themselves (fall back to another command, retry, ignore): whatever
+        # the sense says, one command was sent and its failure reaches the caller
+        from vmon.spec import sense as SN
+
+        well_known = []
+        for key, asc, ascq in ((5, 0x20, 0x00), (5, 0x24, 0x00), (5, 0x25, 0x00), (5, 0x26, 0x00), (5, 0x21, 0x00), (5, 0x1A, 0x00), (6, 0x29, 0x00), (6, 0x28, 0x00), (6, 0x2A, 0x01),
+                               (6, 0x3F, 0x0E), (2, 0x04, 0x01), (2, 0x04, 0x02), (2, 0x3A, 0x00), (0xB, 0x47, 0x03), (0xB, 0x00, 0x00), (1, 0x17, 0x01), (1, 0x5D, 0x00), (0, 0x00, 0x00),
+                               (3, 0x11, 0x00), (4, 0x44, 0x00), (7, 0x27, 0x00), (8, 0x00, 0x00), (0xD, 0x00, 0x00), (0xE, 0x1D, 0x00), (0xA, 0x0D, 0x01)):
+            well_known.append(SN.build(0x70, 0, key, asc, ascq, 18))
+            well_known.append(SN.build(0x72, 0, key, asc, ascq, 8))
+        if shard["statuses"] != "all":
+            well_known = well_known[::3] + well_known[:4]
+        ctx.count("well_known_conditions_per_method", len(well_known))
         for label, c, a in methods:
             setname = {"sbc": "sbc"}.get(c.sets[0], c.sets[0])
             if "sbc" in c.sets:
                 setname = "sbc"
             dev.opcodes = getattr(E, setname)
-            for status in statuses:
-                sense = env.unique_sense(rng) if status == 2 else None
+            for status, fixed_sense in [(st, None) for st in statuses] + [(2, ws) for ws in well_known]:
+                sense = fixed_sense if fixed_sense is not None else env.unique_sense(rng) if status == 2 else None
                 env.plan = [(status, sense)]
                 unm["n"] = 0
                 raised_by_device.clear()
@@ -562,7 +575,7 @@ def run_facade(shard, ctx, env, rng):
                     outcome, exc = "raised", e
                 reached = len(env.mod.log) - before
                 raw = c.xfer == "ata"  # the facade asks for raw sense on ATA pass-through only
-                ctx.case((t, "facade", label, status), status != 0,
+                ctx.case((t, "facade", label, status, bytes(fixed_sense[:14]) if fixed_sense is not None else None), status != 0,
                          sample={"transport": t, "method": label, "status": status, "outcome": outcome, "exception": repr(exc)[:80]} if ctx.want_sample() else None)
                 ctx.add("facade_methods_driven", label)
                 wit = {"method": label, "args": a, "table": setname}
